@@ -59,6 +59,10 @@ def cases(tier, rng):
     per = 2 if tier == "quick" else 5
     for i in range(n_long):
         out.append({"kind": "long", "seed": int(rng.integers(1 << 30)), "n_media": per})
+    # heterogeneous scenes: a dispersive multi-material shape (sphere / cylinder) painted over cells that already hold
+    # the pole coefficients of a dispersive host; both media mild (well inside every stability bound)
+    for i in range(3 if tier == "quick" else 30):
+        out.append({"kind": "overlap", "seed": int(rng.integers(1 << 30)), "index": i})
     # two fixed media from the design-phase probes that are accepted silently and are known to blow up
     out.append({"kind": "long", "seed": 1, "n_media": 1, "fixed": {"poles_dt": [{"kind": "drude", "wp": 0.5, "gamma": 0.0}], "eps_inf": 1.0, "cf": 0.99, "n": 6, "box": "periodic"}})
     out.append({"kind": "long", "seed": 2, "n_media": 1, "fixed": {"poles_dt": [{"kind": "lorentz", "w0": 1.0, "gamma": 0.0, "deps": 2.0}], "eps_inf": 1.0, "cf": 0.99, "n": 6, "box": "periodic"}})
@@ -78,6 +82,8 @@ def run_case(case):
     if case["kind"] == "recurrence":
         for j in range(case["n_scenes"]):
             _recurrence(case["seed"] + j, r)
+    elif case["kind"] == "overlap":
+        _overlap(case, r)
     else:
         for j in range(case["n_media"]):
             _long(case["seed"] + j, r, case.get("fixed"))
@@ -174,6 +180,129 @@ def _recurrence(seed, r):
             else:
                 r.violate(f"{name} differs from the non-dispersive scene at cells with all-zero coefficients outside the box's reach", {**wit, "step": k + 1, "max_diff": float(np.abs(a_[:, far] - b_[:, far]).max())}, sig=sig)
     r.sample = wit
+
+
+def _mild_poles(rng, dt):
+    poles = []
+    for _ in range(int(rng.integers(1, 3))):
+        if rng.random() < 0.5:
+            poles.append({"kind": "lorentz", "w0": float(rng.uniform(0.1, 0.5)) / dt, "gamma": float(rng.uniform(0.0, 0.1)) / dt, "deps": float(rng.uniform(0.2, 1.0))})
+        else:
+            poles.append({"kind": "drude", "wp": float(rng.uniform(0.03, 0.15)) / dt, "gamma": float(rng.uniform(0.0, 0.05)) / dt})
+    return poles
+
+
+def _overlap(case, r):
+    """A dispersive shape placed after, and inside, a dispersive host: every cell must carry exactly the coefficients
+    of the material that owns it (so that its polarisation follows that material's recurrence), and the closed box
+    must stay bounded for 1e4 steps."""
+    import warnings
+
+    import jax
+    import jax.numpy as jnp
+    import numpy as np
+
+    import fdtdx
+    from vf import scenes, sim
+
+    rng = np.random.default_rng(case["seed"])
+    spacing = 50e-9
+    cf = float(rng.uniform(0.5, 0.9))
+    dt = _dt(spacing, cf)
+    n = int(rng.integers(7, 10))
+    kind = ["pec", "periodic"][case["index"] % 2]
+    NSTEPS = 10_000
+    s = scenes.default_scene(shape=(n, n, n), steps=NSTEPS, spacing=spacing)
+    s["courant"] = cf
+    for f in scenes.FACES:
+        s["faces"][f] = {"type": kind}
+    host = {"eps": float(rng.uniform(1.5, 3.0)), "dispersion": {"poles": _mild_poles(rng, dt)}}
+    inner = {"eps": float(rng.uniform(1.0, 4.0)), "dispersion": {"poles": _mild_poles(rng, dt)}}
+    host_is_volume = bool(case["index"] % 3 == 2)
+    if host_is_volume:
+        s["volume"] = host
+    else:
+        s["volume"] = {"eps": float(rng.uniform(1.0, 2.0))}
+        s["materials"] = [{"lo": [1, 1, 0], "hi": [n - 1, n, n - 1], "mat": host, "order": 0, "name": "host"}]
+    shape_kind = ["sphere", "cylinder"][(case["index"] // 2) % 2]
+    rad = float(rng.uniform(1.2, 2.4))
+    d_cells = int(round(2 * rad))
+    lo = [int(rng.integers(1, n - d_cells - 1 + 1)) for _ in range(3)]
+    sh = {"kind": shape_kind, "radius_cells": rad, "materials": {"inner": inner, "other": {"eps": 1.0}}, "material_name": "inner", "order": 1, "lo": lo, "name": "particle"}
+    if shape_kind == "cylinder":
+        sh["axis"] = int(rng.integers(3))
+        sh["length_cells"] = int(rng.integers(2, 4))
+    s["shapes"] = [sh]
+    # one-cell swatches of both media at a corner (painted last): the coefficients placement writes for each medium
+    s.setdefault("materials", [])
+    s["materials"] += [
+        {"lo": [0, 0, n - 1], "hi": [1, 1, n], "mat": host, "order": 9, "name": "sw_host"},
+        {"lo": [0, 1, n - 1], "hi": [1, 2, n], "mat": inner, "order": 9, "name": "sw_inner"},
+    ]
+    with warnings.catch_warnings():
+        warnings.simplefilter("ignore")
+        built = scenes.build(s)
+    arrays, objects, config = built["arrays"], built["objects"], built["config"]
+    desc = {"case": case, "n": n, "box": kind, "courant_factor": cf, "host": host, "inner": inner, "shape": sh, "host_is_volume": host_is_volume}
+    r.branch("overlap:" + shape_kind + ("/host=volume" if host_is_volume else "/host=box"))
+    if arrays.dispersive_c1 is None:
+        r.inconclusive("overlap scene did not allocate coefficient arrays")
+        return
+    cs = [np.asarray(getattr(arrays, k)) for k in ("dispersive_c1", "dispersive_c2", "dispersive_c3")]
+    stack = np.concatenate([c.reshape(-1, n, n, n) for c in cs], axis=0)  # (3*poles*comps, n, n, n)
+    sw_h, sw_i = stack[:, 0, 0, n - 1], stack[:, 0, 1, n - 1]
+    zero = np.zeros_like(sw_h)
+    cells = np.moveaxis(stack, 0, -1).reshape(-1, stack.shape[0])
+    scale = max(float(np.abs(sw_h).max()), float(np.abs(sw_i).max()), 1e-300)
+    owner = np.full(len(cells), -1)
+    for idx, ref in enumerate((zero, sw_h, sw_i)):
+        owner[np.all(np.abs(cells - ref[None]) <= 1e-12 * scale, axis=1)] = idx
+    n_inner = int((owner == 2).sum())
+    r.count("overlap_cells_judged", len(cells))
+    r.count("overlap_shape_cells", max(n_inner - 1, 0))
+    sig = ("overlap", shape_kind, host_is_volume, kind)
+    if (owner < 0).any():
+        bad = int(np.argmax(owner < 0))
+        ijk = [int(x) for x in np.unravel_index(bad, (n, n, n))]
+        r.violate(
+            "a cell's pole coefficients are those of no placed material: its polarisation cannot follow the recurrence of the material that owns it",
+            {**desc, "cell": ijk, "coefficients": [float(x) for x in cells[bad]], "host": [float(x) for x in sw_h], "inner": [float(x) for x in sw_i], "cells_affected": int((owner < 0).sum())},
+            sig=sig,
+        )
+    elif n_inner < 2:
+        r.branch("overlap:shape_painted_no_cell")
+        r.ok(None)
+    else:
+        r.ok(sig)
+    E0, H0 = sim.random_fields(rng, arrays, objects)
+    arrays = sim.set_fields(arrays, E0, 0.0 * H0)
+    key = jax.random.PRNGKey(0)
+
+    def energy(a):
+        return jnp.sum(fdtdx.compute_energy(a.fields.E, a.fields.H, a.inv_permittivities, a.inv_permeabilities))
+
+    def body(state, _):
+        new = sim.forward_step(state, built, key=key)
+        return new, energy(new[1])
+
+    e0 = float(energy(arrays))
+    _, en = jax.jit(lambda a: jax.lax.scan(body, (jnp.asarray(0, dtype=jnp.int32), a), None, length=NSTEPS))(arrays)
+    en = np.asarray(en, dtype=np.float64)
+    r.count("long_runs")
+    r.count("steps_observed", NSTEPS)
+    bad = ~np.isfinite(en) | (en > 10.0 * e0)
+    ratio = float(np.nanmax(np.where(np.isfinite(en), en, np.inf)) / e0) if e0 > 0 else float("inf")
+    r.worst("max_energy_over_initial_in_overlap_scenes", ratio)
+    if bad.any():
+        k = int(np.argmax(bad))
+        r.violate(
+            f"two mild passive media, one painted over the other, grew: field energy exceeded 10x its initial value at step {k + 1}",
+            {**desc, "first_bad_step": k + 1},
+            sig=sig,
+        )
+    else:
+        r.ok(sig if e0 > 0 else None)
+    r.sample = {**desc, "max_energy_ratio": ratio, "shape_cells": n_inner - 1}
 
 
 def _long(seed, r, fixed=None):
